@@ -1,6 +1,7 @@
 package lab
 
 import (
+	"sort"
 	"strings"
 	"time"
 
@@ -22,9 +23,12 @@ type CollectOpts struct {
 	Histories int      // number of histories per grammar
 	MaxRune   bool     // allow U+10FFFF in terminals
 	FirstID   int
-	Exclude   func(g *gram.Grammar) string // known-finding shapes: non-empty => redraw
-	Excluded  map[string]int               // counted exclusions (out)
-	Rejected  *int                         // grammars failing the independent well-formedness re-check (out, expected 0)
+	// Score ranks candidate inputs of an entry (higher is better); the collector draws four
+	// times the quota and keeps the best. It must be a pure function of its arguments.
+	Score    func(g *gram.Grammar, entry int, input []rune) int
+	Exclude  func(g *gram.Grammar) string // known-finding shapes: non-empty => redraw
+	Excluded map[string]int               // counted exclusions (out)
+	Rejected *int                         // grammars failing the independent well-formedness re-check (out, expected 0)
 }
 
 // HostileInputs is the fixed hostile set of DESIGN.md 3.2 (d).
@@ -86,11 +90,36 @@ func Collect(seed uint64, o CollectOpts) []*Case {
 			per = 1
 		}
 		for e := range g.Rules {
-			for k := 0; k < per; k++ {
+			if o.Score == nil {
+				for k := 0; k < per; k++ {
+					s := gram.Sample(g, e, ch, 24)
+					add(string(s))
+					add(string(gram.Mutate(s, ch)))
+					add(string(gram.Mutate(s, ch)))
+				}
+				continue
+			}
+			type cand struct {
+				s     string
+				score int
+			}
+			var cands []cand
+			for k := 0; k < per*4; k++ {
 				s := gram.Sample(g, e, ch, 24)
-				add(string(s))
-				add(string(gram.Mutate(s, ch)))
-				add(string(gram.Mutate(s, ch)))
+				for _, x := range [][]rune{s, gram.Mutate(s, ch), gram.Mutate(s, ch)} {
+					cands = append(cands, cand{string(x), o.Score(g, e, x)})
+				}
+			}
+			sort.SliceStable(cands, func(i, j int) bool { return cands[i].score > cands[j].score })
+			kept := 0
+			for _, cd := range cands {
+				if kept >= per*3 {
+					break
+				}
+				if !seen[cd.s] {
+					add(cd.s)
+					kept++
+				}
 			}
 		}
 		for k := 0; k < 3; k++ {
